@@ -1,6 +1,7 @@
 package main
 
 import (
+	"math"
 	"encoding/json"
 	"fmt"
 	"reflect"
@@ -129,6 +130,51 @@ func c15GenOp(r *Rand, hi int) c15Op {
 	return o
 }
 
+// extreme keys: around word-size and bitset boundaries, and the ends of the int range
+var c15Extremes = []int{31, 32, 33, 63, 64, 65, 127, 128, 129, 255, 256, 1000, 65535, 65536, 1<<31 - 1, 1 << 31, 1<<31 + 1, 1 << 32, 1 << 40,
+	math.MaxInt64 - 1, math.MaxInt64, -3, -64, -65, -(1 << 31), -(1 << 31) - 1, -(1 << 40), math.MinInt64 + 1, math.MinInt64}
+
+// widen rewrites some of the values of an operation to extreme keys and, for set
+// constructors, sometimes to a large argument list.
+func c15Widen(r *Rand, o *c15Op) {
+	pick := func(v int) int {
+		if r.Chance(1, 3) {
+			return c15Extremes[r.Intn(len(c15Extremes))]
+		}
+		return v
+	}
+	o.V = pick(o.V)
+	switch o.Op {
+	case "newset":
+		if r.Chance(1, 6) {
+			// dozens to hundreds of elements
+			n, span := r.Range(40, 300), r.Range(60, 500)
+			o.Vals = o.Vals[:0]
+			for i := 0; i < n; i++ {
+				o.Vals = append(o.Vals, r.Range(-50, span))
+			}
+			if r.Chance(1, 3) {
+				sort.Ints(o.Vals)
+			}
+			return
+		}
+		for i := range o.Vals {
+			o.Vals[i] = pick(o.Vals[i])
+		}
+	case "newmap":
+		if r.Chance(1, 6) {
+			o.Vals = o.Vals[:0]
+			for n := r.Range(40, 200); n > 0; n-- {
+				o.Vals = append(o.Vals, r.Range(-50, 400), r.Range(-1, 4))
+			}
+			return
+		}
+		for i := 0; i < len(o.Vals); i += 2 {
+			o.Vals[i] = pick(o.Vals[i])
+		}
+	}
+}
+
 func (*c15Prop) Gen(r *Rand, pl *Plan) Case {
 	c := &c15Case{Variant: pl.Variant, MapSeed: r.U64(), MapIdentity: r.Chance(1, 8)}
 	size := pl.Size
@@ -143,6 +189,7 @@ func (*c15Prop) Gen(r *Rand, pl *Plan) Case {
 	for k := r.Range(0, 9); k > 0; k-- {
 		c.Arena = append(c.Arena, r.Range(-2, hi))
 	}
+	wide := r.Chance(1, 6) // extreme keys and large argument lists
 	if pl.Variant == 0 {
 		n := r.Range(2, size)
 		chain := r.Chance(1, 5) // a long chain: every operation is applied to the latest value
@@ -151,6 +198,9 @@ func (*c15Prop) Gen(r *Rand, pl *Plan) Case {
 		}
 		for i := 0; i < n; i++ {
 			o := c15GenOp(r, hi)
+			if wide {
+				c15Widen(r, &o)
+			}
 			o.Last = chain && r.Chance(4, 5)
 			c.Ops = append(c.Ops, o)
 		}
@@ -170,7 +220,11 @@ func (*c15Prop) Gen(r *Rand, pl *Plan) Case {
 		var ops []c15Op
 		k := r.Range(1, size)
 		for i := 0; i < k; i++ {
-			ops = append(ops, c15GenOp(r, hi))
+			o := c15GenOp(r, hi)
+			if wide {
+				c15Widen(r, &o)
+			}
+			ops = append(ops, o)
 		}
 		c.TaskOps = append(c.TaskOps, ops)
 	}
@@ -269,6 +323,16 @@ func checkMap(im data.IntMap, m map[int]int) string {
 		return fmt.Sprintf("map Keys()=%v, model %v", keys, want)
 	}
 	for k := -3; k <= 25; k++ {
+		if im.Get(k) != m[k] {
+			return fmt.Sprintf("map Get(%d)=%d, model %d", k, im.Get(k), m[k])
+		}
+	}
+	for k, want := range m {
+		if im.Get(k) != want {
+			return fmt.Sprintf("map Get(%d)=%d, model %d", k, im.Get(k), want)
+		}
+	}
+	for _, k := range c15Extremes {
 		if im.Get(k) != m[k] {
 			return fmt.Sprintf("map Get(%d)=%d, model %d", k, im.Get(k), m[k])
 		}
